@@ -167,12 +167,15 @@ SYMPTOM = {1: "crash", 2: "trace", 3: "error-flag", 4: "result-map", 5: "spec"}
 def evaluate(tag, cases, obs):
     byid = {o["id"]: o for o in obs}
     out, nn, npar = [], 0, 0
-    shard = 500
-    for i in range(0, len(cases), shard):
-        part = cases[i:i + shard]
+    shard = max(50, min(500, (len(cases) + NCPU - 1) // NCPU))
+    parts = [cases[i:i + shard] for i in range(0, len(cases), shard)]
+
+    def one(ip):
+        i, part = ip
         body = "Definition cases : list ecase := %s.\nDefinition M := mismatches gen cases.\nDefinition NT := count_nontrivial cases.\nDefinition NP := count_par cases.\n" % coq_list(
             ["(" + coq_case(c, byid[c["id"]]) + ")" for c in part], per_line=True)
-        res = coq_eval_cases("cases_%s_%d" % (tag, i // shard), HEADER, body, ["M", "NT", "NP"])
+        return coq_eval_cases("cases_%s_%d" % (tag, i), HEADER, body, ["M", "NT", "NP"])
+    for res in parallel_map(one, list(enumerate(parts))):
         out += parse_nat_tuples(res["M"])
         nn += int(re.findall(r"\d+", res["NT"])[0])
         npar += int(re.findall(r"\d+", res["NP"])[0])
